@@ -798,28 +798,22 @@ pub fn entry(op: &Op, st: &mut RefState) -> Option<RefEntry> {
         Op::RqscCtl { ty, reg, rcid, mcid, flags, res } => {
             let mut body: Vec<u8> = Vec::new();
             for r in res {
-                let (idt, id1, id2, data): (u8, [u8; 8], [u8; 4], Vec<u8>) = match &r.id {
-                    RqscId::Cache(c) => (0, (*c as u64).to_le_bytes(), [0; 4], vec![]),
-                    RqscId::Mem(p, bw) => (1, (*p as u64).to_le_bytes(), [0; 4], bw.to_le_bytes().to_vec()),
-                    RqscId::Acpi(h, u) => (2, h.to_le_bytes(), u.to_le_bytes(), vec![]),
-                    RqscId::Pci(b) => (3, (*b as u64).to_le_bytes(), [0; 4], vec![]),
-                    RqscId::Vendor(t, d) => {
-                        let mut a = [0u8; 8];
-                        a.copy_from_slice(&d[..8]);
-                        let mut c = [0u8; 4];
-                        c.copy_from_slice(&d[8..12]);
-                        (*t, a, c, d[12..].to_vec())
-                    }
+                // after the 8-byte fixed part: Resource ID 1 (8), Resource ID 2 (4), resource data
+                let (idt, tail): (u8, Vec<u8>) = match &r.id {
+                    RqscId::Cache(c) => (0, [&(*c as u64).to_le_bytes()[..], &[0u8; 4][..]].concat()),
+                    RqscId::Mem(p, bw) => (1, [&(*p as u64).to_le_bytes()[..], &[0u8; 4][..], &bw.to_le_bytes()[..]].concat()),
+                    RqscId::Acpi(h, u) => (2, [&h.to_le_bytes()[..], &u.to_le_bytes()[..]].concat()),
+                    RqscId::Pci(b) => (3, [&(*b as u64).to_le_bytes()[..], &[0u8; 4][..]].concat()),
+                    // vendor specific: the caller supplies id1, id2 and data as one byte string
+                    RqscId::Vendor(t, d) => (*t, d.clone()),
                 };
-                let len = 20 + data.len();
+                let len = 8 + tail.len();
                 let mut e = B::zeros(len);
                 e.put(0, 1, r.ty as u64);
                 e.put(2, 2, len as u64);
                 e.put(4, 2, r.flags as u64);
                 e.put(7, 1, idt as u64);
-                e.bytes(8, &id1);
-                e.bytes(16, &id2);
-                e.bytes(20, &data);
+                e.bytes(8, &tail);
                 body.extend_from_slice(&e.0);
             }
             let mut b = B::zeros(28);
